@@ -285,6 +285,8 @@ def check_contract(run, f, cfg, maxlen=3):
                "%s tabulated on %d tapes: None <=> nothing consumed; otherwise a Token::%s whose text is exactly the consumed prefix%s" % (
                    name, n, variant[name], "" if not bad else " - EXCEPT " + "; ".join(bad)), cfg=cfg, detail=bad or None)
         run.floor("C16.R2", name + ":tapes", n, 1000, cfg)
+        from .. import scope
+        scope.check_bound(run, "C16.R2", name + ":scope", f, ["crate::token::Tokenizer::" + name], maxlen, cfg, "%s (tapes of length <= %d)" % (name, maxlen))
 
 
 def check_next_table(run, f, cfg):
